@@ -77,7 +77,7 @@ def main():
     try:
         detected = {}
         for c in checks:
-            rc, o = sh(f"./check {c} 2>&1 | grep -E 'VIOLATION|KNOWN|status='", cwd=VERIF)
+            rc, o = sh(f"./check {c} --skip-lean 2>&1 | grep -E 'VIOLATION|KNOWN|status='", cwd=VERIF)
             detected[c] = "VIOLATION" in o
             meta["ran"].append({"cmd": f"./check {c}", "output": o.strip().split("\n")[-3:]})
             rp = os.path.join(VERIF, "work", "replays", f"{c}-quick-1.json")
